@@ -12,9 +12,11 @@ package main
 
 import (
 	"fmt"
+	"math/big"
 	"sort"
 	"strings"
 
+	"github.com/markkurossi/mpc/compiler/mpa"
 	"github.com/markkurossi/mpc/compiler/ssa"
 	"github.com/markkurossi/mpc/types"
 )
@@ -299,4 +301,66 @@ func dropUnsafeGC(prog *ssa.Program, si *ssaInfo) int {
 	return n
 }
 
-var _ = types.TInt
+// repadConstants rewrites the program so that every constant input that
+// Program.Stream would pad / truncate from ANOTHER instance's wires ("Const
+// values are cast to different value sizes") becomes a constant of its own
+// with exactly the instruction's width and the bits Program.Circuit gives it
+// since 3c18dfa (bits of the constant's own value, signed constants extended
+// from the constant's own size).  Used only to attribute a mismatch.
+func repadConstants(prog *ssa.Program) int {
+	constBitsOf := map[string]int{}
+	for _, c := range prog.Constants {
+		v := c.Const
+		constBitsOf[valueKey(&v)] = int(v.Type.Bits)
+	}
+	n := 0
+	for i := range prog.Steps {
+		in := &prog.Steps[i].Instr
+		for j := range in.In {
+			v := &in.In[j]
+			if !v.Const {
+				continue
+			}
+			alloc, ok := constBitsOf[valueKey(v)]
+			if !ok || alloc == int(v.Type.Bits) {
+				continue
+			}
+			mi, ok := v.ConstValue.(*mpa.Int)
+			if !ok {
+				continue
+			}
+			// operands that the streamer / circuit generators read with ConstInt
+			switch in.Op {
+			case ssa.Lshift, ssa.Rshift, ssa.Srshift, ssa.Slice, ssa.Index, ssa.Bts, ssa.Btc:
+				if j >= 1 {
+					continue
+				}
+			case ssa.Amov:
+				if j >= 2 {
+					continue
+				}
+			}
+			own := types.Size(mi.TypeSize())
+			if own > v.Type.Bits {
+				own = v.Type.Bits
+			}
+			pat := new(big.Int)
+			for bit := types.Size(0); bit < v.Type.Bits; bit++ {
+				src := bit
+				if src >= own && v.Type.Type == types.TInt {
+					src = own - 1
+				}
+				if src < own && v.Bit(src) {
+					pat.SetBit(pat, int(bit), 1)
+				}
+			}
+			nv := *v
+			nv.Name = fmt.Sprintf("%s~w%d%s", v.Name, v.Type.Bits, v.Type.Type)
+			nv.ConstValue = pat
+			in.In[j] = nv
+			prog.Constants[nv.Name] = ssa.ConstantInst{Const: nv}
+			n++
+		}
+	}
+	return n
+}
